@@ -120,10 +120,13 @@ theorem summaryStep_compilerVersion (s : Summary) (it : Item) :
       · have : k = litCompiler := by simpa using h1
         subst this
         simp [compiler_ne_version]
-      · simp only [h1, if_false]
-        split
-        · simp
-        · split <;> simp
+      · have h1' : (k == litCompiler) = false := by simpa using h1
+        simp only [h1', Bool.false_eq_true, if_false]
+        by_cases h2 : k = litCompilerVersion
+        · simp [h2]
+        · by_cases h3 : k = litMinApi
+          · subst h3; simp [h2]
+          · simp [h2, h3]
     | cls => rfl
     | field => rfl
     | method => rfl
@@ -143,13 +146,15 @@ theorem summaryStep_minApi (s : Summary) (it : Item) :
       · have : k = litCompiler := by simpa using h1
         subst this
         simp [compiler_ne_minapi]
-      · simp only [h1, if_false]
+      · have h1' : (k == litCompiler) = false := by simpa using h1
+        simp only [h1', Bool.false_eq_true, if_false]
         by_cases h2 : (k == litCompilerVersion) = true
         · have : k = litCompilerVersion := by simpa using h2
           subst this
           simp [version_ne_minapi]
-        · simp only [h2, if_false]
-          split <;> simp
+        · have h2' : (k == litCompilerVersion) = false := by simpa using h2
+          simp only [h2', Bool.false_eq_true, if_false]
+          by_cases h3 : k = litMinApi <;> simp [h3]
     | cls => rfl
     | field => rfl
     | method => rfl
@@ -197,8 +202,8 @@ theorem isClass_not_member (it : Item) (h : it.isClass = true) : it.isMember = f
 
 theorem isValidGo_iff (items : List Item) (hc : Bool) :
     isValidGo hc items = true ↔
-      ∃ j mj, items[j]? = some mj ∧ mj.isMember = true ∧
-        (hc = true ∨ ∃ i ci, i < j ∧ items[i]? = some ci ∧ ci.isClass = true) := by
+      ∃ (j : Nat) (mj : Item), items[j]? = some mj ∧ mj.isMember = true ∧
+        (hc = true ∨ ∃ (i : Nat) (ci : Item), i < j ∧ items[i]? = some ci ∧ ci.isClass = true) := by
   induction items generalizing hc with
   | nil => simp [isValidGo]
   | cons it rest ih =>
@@ -248,7 +253,7 @@ theorem isValidGo_iff (items : List Item) (hc : Bool) :
 
 theorem isValidGo_take_iff (items : List Item) (n : Nat) :
     isValidGo false (items.take n) = true ↔
-      ∃ i j ci mj, i < j ∧ j < n ∧ items[i]? = some ci ∧ ci.isClass = true ∧
+      ∃ (i j : Nat) (ci mj : Item), i < j ∧ j < n ∧ items[i]? = some ci ∧ ci.isClass = true ∧
         items[j]? = some mj ∧ mj.isMember = true := by
   rw [isValidGo_iff]
   constructor
